@@ -438,8 +438,14 @@ impl Property for C14 {
         }
         let tr = gen_tree(t);
         let std_names: HashSet<String> = sut::std_files().iter().map(|f| f.0.clone()).collect();
-        let model = expand(&tr.files, &std_names, &tr.root);
-        let mut h = 0u64;
+        // v2: one case in five names a second root file on the command line (one assembly, shared #once set)
+        let second_root: Option<String> = if crate::engine::gen_version() >= 2 && tr.order.len() >= 2 && t.chance(1, 5) { Some(tr.order[1 + t.below(tr.order.len() - 1)].clone()) } else { None };
+        let roots: Vec<&str> = match &second_root {
+            Some(r) => vec![tr.root.as_str(), r.as_str()],
+            None => vec![tr.root.as_str()],
+        };
+        let model = expand_many(&tr.files, &std_names, &roots);
+        let mut h = if second_root.is_some() { crate::engine::fnv(roots[1].as_bytes()) } else { 0u64 };
         for n in &tr.order {
             h = crate::engine::mix(h, crate::engine::fnv(file_text(&tr.files[n]).as_bytes()));
             h = crate::engine::mix(h, crate::engine::fnv(n.as_bytes()));
@@ -466,8 +472,11 @@ impl Property for C14 {
         fs.add_std();
         // a file that an escaping path would find if confinement failed
         fs.add("../secret.asm", format!("#d8 {}\n", SENTINEL).into_bytes());
-        let out = sut::assemble(&mut fs, &[&tr.root], &Opts::default());
+        let out = sut::assemble(&mut fs, &roots, &Opts::default());
         ctx.evals += 1;
+        if second_root.is_some() {
+            ctx.label("two-root-files");
+        }
         let judge = |out_bytes: Option<Vec<u8>>, what: &str, brief: String| -> Option<(String, String)> {
             match (&model, out_bytes) {
                 (Ok(seq), Some(b)) => {
@@ -511,7 +520,11 @@ impl Property for C14 {
             std::fs::write(proj.join("<std>").join("nope.asm"), format!("#d8 {}\n", SENTINEL)).unwrap();
             std::fs::write(top.join("outer").join("secret.asm"), format!("#d8 {}\n", SENTINEL)).unwrap();
             std::fs::write(top.join("secret.asm"), format!("#d8 {}\n", SENTINEL)).unwrap();
-            let args: Vec<String> = vec!["-q".into(), tr.root.clone(), "-f".into(), "binary".into(), "-o".into(), "out.bin".into()];
+            let mut args: Vec<String> = vec!["-q".into(), tr.root.clone()];
+            if let Some(r2) = &second_root {
+                args.push(r2.clone());
+            }
+            args.extend(["-f".to_string(), "binary".into(), "-o".into(), "out.bin".into()]);
             let r = realbin::run(&realbin::bin_path(false), &proj, &args, &realbin::Limits::default());
             ctx.evals += 1;
             let outb = std::fs::read(proj.join("out.bin")).ok();
